@@ -256,6 +256,21 @@ func (ru *run) addEnc(tc *tcase, val bool, vterm string, b []byte, cls string) {
 	ru.st.Count("enc:" + clsName(cls))
 }
 
+// addRaw adds a case whose Coq term the caller wrote itself (compact forms of large values).
+func (ru *run) addRaw(term string, tc *tcase, op string, key string) {
+	ru.cf.Add(term)
+	ru.st.CaseIndex = append(ru.st.CaseIndex, map[string]any{"op": op, "type": tc.idx, "term": clip(term)})
+	ru.st.Case(hashOf(key), true)
+	ru.st.Count(op)
+}
+
+func minInt(a, b int) int {
+	if a < b {
+		return a
+	}
+	return b
+}
+
 func (ru *run) addDec(tc *tcase, val bool, in []byte, d decRes) {
 	var o string
 	if d.cls == "" && tc.sh.HasZero && maxLen(tc.eff, d.ptr.Elem(), 0) > len(in)+1 {
@@ -999,6 +1014,155 @@ func (ru *run) directed(known *[]string) {
 							if dval == val && (d.cls != "" || d.n != len(b) || canonPrint(tcB.eff, d.ptr.Elem()) != canonPrint(tcB.eff, v)) {
 								ru.fail("bounds-roundtrip-decode-fails", tcB, "Decode rejects (or changes) what Encode produced in the same validation mode: "+d.cls+" "+d.msg,
 									map[string]any{"value": vterm, "val": val, "bytes": hex.EncodeToString(b), "bounds": fmt.Sprintf("%+v", b0)})
+							}
+						}
+					}
+				}
+			}
+		}
+	}
+	// collections whose element or key type is a registered INTERFACE: map[uint8]any, map[any]uint8, []any, [2]any; the
+	// decoder resolves the type settings of the freshly created nil element / key before decoding it. Valid, truncated,
+	// unknown-code and duplicate-key inputs with >= 1 entry, both modes; oracle: no panic, accepted => canonical.
+	{
+		u8n := &Node{K: KInt, T: intTypes["u1"], W: 1}
+		st := &Node{K: KStruct, Fields: []Field{{K: FPlain, N: u8n}}}
+		st.T = reflect.StructOf([]reflect.StructField{{Name: "X", Type: u8n.T, Tag: `serix:"x"`}})
+		mkI := func() *Node {
+			return &Node{K: KIface, T: anyType, Iface: &ifaceInfo{T: anyType, Alts: []Alt{{Code: 1, N: st}}}}
+		}
+		regI := func(root *Node) func(sh *Shape) {
+			return func(sh *Shape) {
+				sh.Reg[st.T] = &TS{Code: &TyCode{C: 1}}
+				sh.RegOrd = append(sh.RegOrd, st.T)
+				var inf *ifaceInfo
+				root.walk(func(n *Node) {
+					if n.K == KIface {
+						inf = n.Iface
+					}
+				}, 0)
+				sh.Ifaces[anyType] = inf
+				sh.IfOrd = append(sh.IfOrd, anyType)
+			}
+		}
+		type ic struct {
+			n   *Node
+			ins [][]byte
+		}
+		ie, ik, is, ia := mkI(), mkI(), mkI(), mkI()
+		for _, c := range []ic{
+			{&Node{K: KMap, Key: u8n, Elem: ie, T: reflect.MapOf(u8n.T, anyType)}, [][]byte{{1, 5, 1, 9}, {2, 5, 1, 9, 6, 1, 7}, {1, 5}, {1}, {1, 5, 7, 0}, {2, 5, 1, 9, 5, 1, 9}, {2, 6, 1, 9, 5, 1, 9}, {0}}},
+			{&Node{K: KMap, Key: ik, Elem: u8n, T: reflect.MapOf(anyType, u8n.T)}, [][]byte{{1, 1, 9, 5}, {2, 1, 8, 5, 1, 9, 6}, {1, 1}, {1}, {1, 7, 0, 0}, {2, 1, 9, 5, 1, 9, 6}, {0}}},
+			{&Node{K: KSlice, Elem: is, T: reflect.SliceOf(anyType)}, [][]byte{{1, 1, 9}, {2, 1, 9, 1, 8}, {1}, {1, 7, 0}, {0}}},
+			{&Node{K: KArr, N: 2, Elem: ia, T: reflect.ArrayOf(2, anyType)}, [][]byte{{2, 1, 9, 1, 8}, {2, 1, 9}, {2}, {1, 1, 9}, {2, 7, 0, 1, 1}}},
+		} {
+			tcI := mk(c.n, TS{L: ip(0)}, regI(c.n))
+			for _, in := range c.ins {
+				for _, val := range []bool{false, true} {
+					d := doDecode(tcI.sh, c.n.T, in, val, false)
+					ru.addDec(tcI, val, in, d)
+					if d.cls == "PANIC" {
+						ru.fail("decode-panic", tcI, "Decode panicked: "+d.msg, map[string]any{"in": hex.EncodeToString(in), "val": val})
+					}
+					if d.cls != "" {
+						continue
+					}
+					b2, cls2, _ := doEncode(tcI.sh, d.ptr.Elem(), val)
+					ru.addEnc(tcI, val, toCoq(tcI.eff, d.ptr.Elem()), b2, cls2)
+					if val && (cls2 != "" || !bytes.Equal(b2, in[:d.n])) {
+						ru.fail("noncanonical-accepted", tcI, "interface-typed element/key: validating Decode accepted bytes that do not re-encode to themselves", map[string]any{"in": hex.EncodeToString(in), "reencoded": clsOr(cls2, b2)})
+					}
+				}
+			}
+		}
+	}
+	// length-prefix limits: element counts 2^w-1, 2^w, 2^w+1 under a uint8 / uint16 prefix for []byte, string, []bool and
+	// map[uint16]bool. The count must be written as is or the encoder must fail - never modulo 2^w. uint8 cases go to the
+	// model as usual; the uint16 cases are emitted in compact form (repeat) where the payload is uniform, []bool and maps with
+	// >= 65535 entries are judged by the Go-side oracle only (the model's sequence loop and insertion sort are quadratic).
+	{
+		bl := &Node{K: KBool, T: reflect.TypeOf(false)}
+		mkVal := func(n *Node, cnt int) reflect.Value {
+			v := reflect.New(n.T).Elem()
+			switch n.K {
+			case KBytes:
+				v.SetBytes(bytes.Repeat([]byte{7}, cnt))
+			case KString:
+				v.SetString(strings.Repeat("a", cnt))
+			case KSlice:
+				s := reflect.MakeSlice(n.T, cnt, cnt)
+				for i := 0; i < cnt; i++ {
+					s.Index(i).SetBool(true)
+				}
+				v.Set(s)
+			case KMap:
+				m := reflect.MakeMapWithSize(n.T, cnt)
+				for i := 0; i < cnt; i++ {
+					m.SetMapIndex(reflect.ValueOf(uint16(i)), reflect.ValueOf(false))
+				}
+				v.Set(m)
+			}
+			return v
+		}
+		count := func(n *Node, v reflect.Value) int { return v.Len() }
+		for _, w := range []int{0, 1} {
+			lim := []int{256, 65536}[w]
+			kinds := []*Node{{K: KBytes, T: bytesType}, {K: KString, T: stringType}, {K: KSlice, Elem: bl, T: reflect.SliceOf(bl.T)},
+				{K: KMap, Key: u16, Elem: bl, T: reflect.MapOf(u16.T, bl.T)}}
+			for _, kn := range kinds {
+				node := *kn
+				tcL := mk(&node, TS{L: ip(w)}, nil)
+				for _, cnt := range []int{lim - 1, lim, lim + 1} {
+					v := mkVal(&node, cnt)
+					for _, val := range []bool{false, true} {
+						b, cls, msg := doEncode(tcL.sh, v, val)
+						ru.st.Count(fmt.Sprintf("prefix-limit:w%d:%s:%d:%s", 8<<w, kindNames[node.K], cnt-lim, clsName(cls)))
+						// Go-side oracle (independent of the model): Encode fails, or the prefix is the count and the value comes back
+						if cls == "PANIC" {
+							ru.fail("encode-panic", tcL, "Encode panicked: "+msg, map[string]any{"count": cnt, "val": val})
+						} else if cls == "" {
+							pre := 0
+							for i := w; i >= 0 && i < len(b); i-- {
+								pre = pre<<8 | int(b[i])
+							}
+							d := doDecode(tcL.sh, node.T, b, val, false)
+							if len(b) < w+1 || pre != cnt || d.cls != "" || d.n != len(b) || count(&node, d.ptr.Elem()) != cnt {
+								ru.fail("prefix-limit-wrong-count", tcL, fmt.Sprintf("Encode of %d elements under a uint%d prefix wrote the count %d; Decode: %s n=%d of %d", cnt, 8<<w, pre, clsName(d.cls), d.n, len(b)), map[string]any{"count": cnt, "val": val, "head": hex.EncodeToString(b[:minInt(len(b), 8)])})
+							}
+						}
+						// model: small cases as usual; large uniform ones in compact form; large maps not at all
+						switch {
+						case w == 0:
+							ru.addEnc(tcL, val, toCoq(tcL.eff, v), b, cls)
+							if cls == "" {
+								ru.addDec(tcL, val, b, doDecode(tcL.sh, node.T, b, val, false))
+							}
+						case node.K == KBytes || node.K == KString: // linear in the model; the []bool decode loop is quadratic there
+							elem := map[Kind]string{KBytes: "7", KString: "97", KSlice: "1"}[node.K]
+							vt := fmt.Sprintf("(VBytes (repeat %s (N.to_nat %d)))", elem, cnt)
+							if node.K == KSlice {
+								vt = fmt.Sprintf("(VL (repeat (VBool true) (N.to_nat %d)))", cnt)
+							}
+							wire := fmt.Sprintf("([%d; %d] ++ repeat %s (N.to_nat %d))", cnt&255, (cnt>>8)&255, elem, cnt)
+							obs := "(OEErr " + cls + ")"
+							if cls == "" {
+								obs = "(OEOk " + wire + ")"
+								if len(b) != cnt+2 || b[0] != byte(cnt) || b[1] != byte(cnt>>8) || bytes.Count(b[2:], b[2:3]) != cnt {
+									obs = "(OEOk " + vx.Bytes(b) + ")" // not of the expected uniform form: print it in full
+								}
+							} else if cls == "PANIC" {
+								obs = "OEPanic"
+							}
+							ru.addRaw(fmt.Sprintf("CEnc %s %s %s %s", vx.Bool(val), tcL.name, vt, obs), tcL, "enc-compact", fmt.Sprintf("%s#%d#%v", tcL.sch, cnt, val))
+							if cls == "" && strings.HasPrefix(obs, "(OEOk ([") {
+								d := doDecode(tcL.sh, node.T, b, val, false)
+								od := "(ODErr " + d.cls + ")"
+								if d.cls == "" && d.n == len(b) && count(&node, d.ptr.Elem()) == cnt {
+									od = fmt.Sprintf("(ODOk %s %d)", vt, d.n)
+								} else if d.cls == "" {
+									od = fmt.Sprintf("(ODOk %s %d)", toCoq(tcL.eff, d.ptr.Elem()), d.n)
+								}
+								ru.addRaw(fmt.Sprintf("CDec %s %s %s %s", vx.Bool(val), tcL.name, wire, od), tcL, "dec-compact", fmt.Sprintf("%s#%d#%v#d", tcL.sch, cnt, val))
 							}
 						}
 					}
